@@ -539,7 +539,7 @@ func ttDescribe(log []crashfs.Op, k int) string {
 
 func TestVerifC04Trace(t *testing.T) {
 	verifkit.Run(t, verifkit.Spec[ttCase]{
-		Property: "C04", Unit: "trace_crash",
+		Property: "C04", Unit: "trace_crash", CrashReplay: true,
 		Rule: "a trace shard (core parts plus the ordered secondary index, both published by the shard manifest): 2..5 write batches of 1..6 spans over 6 traces, " +
 			"each followed by generated flushes and merges of arbitrary subsets of file parts (core and index merged together), run on a crash-logging file system; " +
 			"for every crash point of short logs (sampled points plus every point of the second half of each merge for long logs) the kill -9 image and the " +
